@@ -46,7 +46,7 @@ RULE = (
     "seed rows per shard with PKs from 1..4 so equal PKs live on several shards; program of 4-15 ops (always one chooser-routed select, one unit-of-work write and one lazy load): add parent(+children)/add child/"
     "modify/ORM delete + flush, commit, get (plain / identity_token / bind shard_id), select (2.0, legacy Query, column rows, Core table; "
     "filters, ORDER BY, LIMIT; set_shard_id option / bind_arguments shard_id / Query.set_shard), lazy load of Parent.children and "
-    "Child.parent, refresh, expire+access, ORM-enabled bulk UPDATE/DELETE, detach (expunge / second session closed / + pickle round trip) + optional modification + merge(load=True) "
+    "Child.parent, refresh, expire+access, ORM-enabled bulk UPDATE/DELETE, one flush inserting / re-pointing several parents whose post_update many-to-one (Parent.fav) lives on different shards with re-used PKs, detach (expunge / second session closed / + pickle round trip) + optional modification + merge(load=True) "
     "of an object whose PK also lives on other shards, with or without the other shard's object resident in the session). Object references are indexes modulo the current model rows. "
     "Non-trivial: some read/bulk op spanned >=2 shards that both hold one of the PKs of the queried table, or a lazy load / refresh / "
     "expired load ran for an object of a shard other than the first; distinct = canonical JSON of the case"
@@ -75,6 +75,7 @@ class Parent:
     rk = sa.Column(sa.String, nullable=False)
     tag = sa.Column(sa.String)
     val = sa.Column(sa.Integer)
+    fav_id = sa.Column(sa.Integer)  # favourite child, written by a post_update UPDATE at the end of the flush
 
 
 @_reg.mapped
@@ -87,11 +88,12 @@ class Child:
     parent = relationship(Parent, primaryjoin=lambda: foreign(Child.parent_id) == Parent.id, backref="children")
 
 
+Parent.__mapper__.add_property("fav", relationship(Child, primaryjoin=lambda: foreign(Parent.fav_id) == Child.id, post_update=True))
 _reg.configure()
 CLS = {"P": Parent, "C": Child}
 TBL = {"P": "parent", "C": "child"}
 DDL = [
-    "CREATE TABLE parent (id INTEGER NOT NULL PRIMARY KEY, rk VARCHAR NOT NULL, tag VARCHAR, val INTEGER)",
+    "CREATE TABLE parent (id INTEGER NOT NULL PRIMARY KEY, rk VARCHAR NOT NULL, tag VARCHAR, val INTEGER, fav_id INTEGER)",
     "CREATE TABLE child (id INTEGER NOT NULL PRIMARY KEY, parent_id INTEGER, tag VARCHAR, val INTEGER)",
 ]
 _case_counter = [0]
@@ -256,7 +258,7 @@ class _World:
                     else:
                         rk = KEYS[rki % len(KEYS)]
                     tag = f"{s}/P/{pid}"
-                    self.db[s]["P"][pid] = {"rk": rk, "tag": tag, "val": val}
+                    self.db[s]["P"][pid] = {"rk": rk, "tag": tag, "val": val, "fav": None}
                     self.tag_home[tag] = ("P", pid, s)
                     raw.execute("INSERT INTO parent (id, rk, tag, val) VALUES (?,?,?,?)", (pid, rk, tag, val))
                 for cid_, ppid, val in seed["children"]:
@@ -422,6 +424,7 @@ class _World:
         got = {"tag": obj.tag, "val": obj.val}
         if cls == "P":
             got["rk"] = obj.rk
+            got["fav"] = obj.fav_id
         else:
             got["parent_id"] = obj.parent_id
         self.expect_sql("attribute-load", within=[shard])
@@ -448,11 +451,11 @@ class _World:
         for s in self.names:
             raw = sautil.raw_connect(self.engines[s]._vf_path)
             try:
-                prow = raw.execute("SELECT id, rk, tag, val FROM parent ORDER BY id").fetchall()
+                prow = raw.execute("SELECT id, rk, tag, val, fav_id FROM parent ORDER BY id").fetchall()
                 crow = raw.execute("SELECT id, parent_id, tag, val FROM child ORDER BY id").fetchall()
             finally:
                 raw.close()
-            exp_p = [(pk, r["rk"], r["tag"], r["val"]) for pk, r in sorted(self.db[s]["P"].items())]
+            exp_p = [(pk, r["rk"], r["tag"], r["val"], r["fav"]) for pk, r in sorted(self.db[s]["P"].items())]
             exp_c = [(pk, r["parent_id"], r["tag"], r["val"]) for pk, r in sorted(self.db[s]["C"].items())]
             if prow != exp_p or crow != exp_c:
                 raise Violation(
@@ -548,7 +551,7 @@ def _op_add_parent(w, op):
     w.sess.flush()
     w.dirty = True
     w.expect_sql("flush-add", exact=[s])
-    w.db[s]["P"][pid] = {"rk": op["rk"], "tag": ptag, "val": op["val"]}
+    w.db[s]["P"][pid] = {"rk": op["rk"], "tag": ptag, "val": op["val"], "fav": None}
     w.tag_home[ptag] = ("P", pid, s)
     for cid, c, kval in kids:
         w.db[s]["C"][cid] = {"parent_id": pid, "tag": c.tag, "val": kval}
@@ -1051,7 +1054,7 @@ def _op_merge(w, op):
             w.pick(cls, w.rows_of(cls).index((b, pk)))
         w.audit_obj(kb, "pre-merge")  # loads expired column attributes (own shard only)
         det, src_sticky = w.held[kb]
-        w.sess.expire(det, ["children" if cls == "P" else "parent"])  # unloaded relationships: merge does not cascade
+        w.sess.expire(det, ["children", "fav"] if cls == "P" else ["parent"])  # unloaded relationships: merge does not cascade
         w.sess.expunge(det)
         w.drop(kb)
     else:
@@ -1128,7 +1131,11 @@ def _op_merge(w, op):
         row["val"] = new_val
         w.expect_sql("merge-flush", exact=[b], kinds={"INSERT", "UPDATE", "DELETE"})
     else:
-        w.expect_sql("merge-flush", exact=[], kinds={"INSERT", "UPDATE", "DELETE"})
+        # no value changed; a never-populated column (fav_id of an object added without it) copied as None may still
+        # produce a no-op UPDATE, which must stay on the object's own shard
+        w.expect_sql("merge-flush", within=[b], kinds={"INSERT", "UPDATE", "DELETE"})
+        if w.seen({"INSERT", "UPDATE", "DELETE"}):
+            w.dirty = True
     w.see(merged, cls, "merge", sticky_if_new=src_sticky, expected_shard=b)
     if w.held[kb][1] != src_sticky:
         # merge onto a resident object replaces its loader options (e.g. a propagating set_shard_id) by those of the source
@@ -1141,7 +1148,121 @@ def _op_merge(w, op):
         w.dump_check("merge-commit")  # raw sqlite3: the UPDATE landed in shard B only
 
 
+def _op_add_multi(w, op):
+    """ONE flush that inserts new parents (each with a new child that is also its post_update 'fav') which the shard
+    chooser places on several shards, re-using the same primary keys across shards where they are free"""
+    from sqlalchemy.orm.exc import StaleDataError
+
+    made, used_p, used_c = [], set(), set()
+    for it in op["items"]:
+        s = w.table[it["rk"]]
+        pid = next((c for d in range(8) for c in [(it["id"] - 1 + d) % 8 + 1]
+                    if c not in w.db[s]["P"] and ("P", c, s) not in w.held and (s, c) not in used_p), None)
+        cid = next((c for d in range(8) for c in [(it["kid"] - 1 + d) % 8 + 1]
+                    if c not in w.db[s]["C"] and ("C", c, s) not in w.held and (s, c) not in used_c), None)
+        if pid is None or cid is None:
+            continue
+        used_p.add((s, pid))
+        used_c.add((s, cid))
+        w.newtag += 2
+        p = Parent(id=pid, rk=it["rk"], tag=f"n{w.newtag - 1}", val=it["val"])
+        c = Child(id=cid, tag=f"n{w.newtag}", val=it["val"], parent=p)
+        p.fav = c
+        made.append((s, pid, cid, p, c))
+    if not made:
+        w.labels.add("noop")
+        return
+    shards = sorted({m[0] for m in made})
+    w.labels.add("post_update:insert-flush")
+    if len(shards) >= 2:
+        w.nontrivial = True
+        w.labels.add("post_update:one-flush-spans-shards")
+        pks = [m[1] for m in made]
+        if any(pks.count(x) >= 2 for x in pks):
+            w.labels.add("post_update:one-flush-spans-shards:same-pk")
+    for m in made:
+        w.sess.add(m[3])
+    w.clear()
+    try:
+        w.sess.flush()
+    except StaleDataError as e:
+        raise Violation("C53/flush-post-update/stale-data", f"one flush inserting parents on shards {shards} with post_update: {e}", observed=str(e))
+    w.dirty = True
+    w.expect_sql("flush-post-update", exact=shards, kinds={"INSERT", "UPDATE", "DELETE"})
+    for s, pid, cid, p, c in made:
+        w.db[s]["P"][pid] = {"rk": p.rk, "tag": p.tag, "val": p.val, "fav": cid}
+        w.tag_home[p.tag] = ("P", pid, s)
+        w.db[s]["C"][cid] = {"parent_id": pid, "tag": c.tag, "val": c.val}
+        w.tag_home[c.tag] = ("C", cid, s)
+    for s, pid, cid, p, c in made:
+        w.see(p, "P", "flush-post-update", expected_shard=s)
+        w.see(c, "C", "flush-post-update", expected_shard=s)
+        w.sess.expire(p, ["fav"])
+    if op.get("commit"):
+        w.sess.commit()
+        w.dirty = False
+        w.dump_check("post-update-commit")
+
+
+def _op_set_fav(w, op):
+    """ONE flush changing the post_update many-to-one of persistent parents that live on several shards"""
+    from sqlalchemy.orm.exc import StaleDataError
+
+    plan, seen_k = [], set()
+    for ref, cref in op["targets"]:  # phase 1: load everything (loads autoflush, so nothing may be pending yet)
+        k = w.pick("P", ref)
+        if k is None or k in seen_k:
+            continue
+        seen_k.add(k)
+        _, pid, s = k
+        row = w.db[s]["P"][pid]
+        w.audit_obj(k, "pre-set-fav")
+        cand = [c for c in sorted(w.db[s]["C"]) if c != row["fav"]]
+        if cand:
+            cid = cand[cref % len(cand)]
+            kc = ("C", cid, s)
+            if kc not in w.held:
+                w.pick("C", w.rows_of("C").index((s, cid)))
+            plan.append((k, cid))
+        elif row["fav"] is not None:
+            plan.append((k, None))
+    changed = []
+    w.clear()
+    with w.sess.no_autoflush:  # loading the old value of a later target must not flush the earlier ones separately
+        for k, cid in plan:  # phase 2: assign, then one flush
+            w.held[k][0].fav = None if cid is None else w.held[("C", cid, k[2])][0]
+            changed.append((k, cid))
+    if not changed:
+        w.labels.add("noop")
+        return
+    shards = sorted({k[2] for k, _ in changed})
+    w.labels.add("post_update:update-flush")
+    if len(shards) >= 2:
+        w.nontrivial = True
+        w.labels.add("post_update:one-flush-spans-shards")
+        pks = [k[1] for k, _ in changed]
+        if any(pks.count(x) >= 2 for x in pks):
+            w.labels.add("post_update:one-flush-spans-shards:same-pk")
+    try:
+        w.sess.flush()
+    except StaleDataError as e:
+        raise Violation("C53/flush-post-update/stale-data", f"one flush updating post_update FKs of parents on shards {shards}: {e}", observed=str(e))
+    w.dirty = True
+    w.expect_sql("flush-post-update", exact=shards, kinds={"INSERT", "UPDATE", "DELETE"})
+    for k, cid in changed:
+        w.db[k[2]]["P"][k[1]]["fav"] = cid
+    for k, _ in changed:
+        w.audit_obj(k, "flush-post-update")
+        w.sess.expire(w.held[k][0], ["fav"])
+    if op.get("commit"):
+        w.sess.commit()
+        w.dirty = False
+        w.dump_check("post-update-commit")
+
+
 OPS = {
+    "add_multi": _op_add_multi,
+    "set_fav": _op_set_fav,
     "merge": _op_merge,
     "add_parent": _op_add_parent,
     "add_child": _op_add_child,
@@ -1313,6 +1434,10 @@ def _strats(n):
             "commit": st.booleans(),
         }
     )
+    mitem = st.fixed_dictionaries({"rk": st.sampled_from(KEYS), "id": st.integers(1, 4), "kid": st.integers(1, 5), "val": st.integers(0, 9)})
+    add_multi = st.fixed_dictionaries({"op": st.just("add_multi"), "items": st.lists(mitem, min_size=2, max_size=4), "commit": st.booleans()})
+    set_fav = st.fixed_dictionaries({"op": st.just("set_fav"), "targets": st.lists(st.tuples(ref, st.integers(0, 5)).map(list), min_size=2, max_size=3), "commit": st.booleans()})
+    post_update = st.one_of(add_multi, add_multi, set_fav)
     write = st.one_of(add_parent, add_parent, add_child, modify, modify, orm_delete)
     op = st.one_of(
         add_parent,
@@ -1332,6 +1457,7 @@ def _strats(n):
         bulk("P"),
         bulk("C"),
         merge,
+        post_update,
     )
     sticky_route = st.tuples(st.just("opt"), sh, st.just(True)).map(list)
     sticky_api = st.sampled_from(["select", "query"])
@@ -1345,6 +1471,7 @@ def _strats(n):
         "lazy": lazy,
         "write": write,
         "merge": merge,
+        "post_update": post_update,
         "few3": st.lists(op, min_size=0, max_size=3),
         "few4": st.lists(op, min_size=1, max_size=4),
         "sel_unrouted": st.one_of(sel("P", route=st.none()), sel("C", route=st.none())),
@@ -1391,6 +1518,8 @@ def _programs(draw):
     else:
         ops.append(draw(S["lazy"]))
     ops.extend(draw(S["few3"]))
+    if draw(_THIRD) == 0:  # a third of the programs: one flush with post_update rows on several shards
+        ops.insert(draw(st.integers(0, len(ops))), draw(S["post_update"]))
     if draw(_THIRD) == 0:  # a third of the programs: detach + merge across shards, at a drawn position after the first ops
         ops.insert(draw(st.integers(1, len(ops))), draw(S["merge"]))
     return {
